@@ -73,6 +73,10 @@ EXPLANATION += (
     ' Round 7: marker columns are selected from the query by a name-derived fancy index, not a range (R-ROLE/columns-by-name, rule of C07).'
 )
 
+EXPLANATION += (
+    ' Round 8: all_parents lists the levels in hierarchy order and is not re-ordered (producer side of R-PROV/deepest-first).'
+)
+
 RULE_TEXT = (
     "one obligation per cache-path argument, per indexed comprehension, "
     "per cache dataset, per log conditional, per error condition, per "
